@@ -12,6 +12,8 @@ package dns
 // RFC 1035 3.4.1: the four address octets, in order; an absent address (dynamic update) takes no room
 //@   ensures octets: ret1 == nil && len(a) == 4 ==> ret0 == off + 4 && (forall k in 0..4 :: msg[off+k] == old(a[k])) [C01]
 //@   ensures absent: ret1 == nil && len(a) == 0 ==> ret0 == off [C01]
+// an address that is present takes the four octets the len methods count for it, whatever To4 makes of it
+//@   ensures adv: ret1 == nil && len(a) != 0 ==> ret0 == off + 4 [C01 C08]
 //@   ensures only: ret1 != nil ==> (len(a) != 0 && len(a) != 4 && len(a) != 16) || off + 4 > len(msg) [C01]
 //@   writes msg
 //@ func packDataAAAA [C01 C08 C16]
@@ -21,6 +23,7 @@ package dns
 // RFC 3596 2.2: the sixteen address octets, in order
 //@   ensures octets: ret1 == nil && len(aaaa) == 16 ==> ret0 == off + 16 && (forall k in 0..16 :: msg[off+k] == old(aaaa[k])) [C01]
 //@   ensures absent: ret1 == nil && len(aaaa) == 0 ==> ret0 == off [C01]
+//@   ensures adv: ret1 == nil && len(aaaa) != 0 ==> ret0 == off + 16 [C01 C08]
 //@   ensures only: ret1 != nil ==> (len(aaaa) != 0 && len(aaaa) != 16) || off + 16 > len(msg) [C01]
 //@   writes msg
 // an empty list of character strings takes no room (the len methods count none for it); each string of a
